@@ -8,11 +8,13 @@ ROOT=$(cd "$(dirname "$0")/.." && pwd)
 OUT=${1:-/root/scratch/coverage}
 B=$(dirname "$(rustup which --toolchain nightly rustc)")/../lib/rustlib/x86_64-unknown-linux-gnu/bin
 rm -rf "$OUT/run" && mkdir -p "$OUT/run"
-(cd "$ROOT/harness" && RUSTFLAGS="-C instrument-coverage" CARGO_TARGET_DIR="$OUT/target" CARGO_NET_OFFLINE=true cargo +nightly build --release --offline 2>&1 | tail -1)
+# (instrumented build scripts / proc macros write their profiles next to the crate they run in unless told otherwise)
+(cd "$ROOT/harness" && LLVM_PROFILE_FILE="$OUT/build-%p.profraw" RUSTFLAGS="-C instrument-coverage" CARGO_TARGET_DIR="$OUT/target" CARGO_NET_OFFLINE=true cargo +nightly build --release --offline 2>&1 | tail -1)
 for p in C01 C02 C03 C04 C05 C06 C07 C08 C09 C10 C11 C12 C13 C14 C15 C16 C17 C18 C19 C20; do
   LLVM_PROFILE_FILE="$OUT/run/$p-%p.profraw" "$OUT/target/release/tt-harness" gen $p --tier quick --seed 0 --out "$OUT/run/out-$p" --shards 1 --scale 1 > /dev/null 2>&1 || echo "$p: harness exit $?"
   rm -rf "$OUT/run/out-$p"
 done
+rm -f "$OUT"/build-*.profraw
 "$B/llvm-profdata" merge -sparse "$OUT"/run/*.profraw -o "$OUT/all.profdata"
 SRC=$(find /repo/tunnel/src /repo/capture/src -name '*.rs' | grep -v '/tests')
 "$B/llvm-cov" report "$OUT/target/release/tt-harness" -instr-profile="$OUT/all.profdata" $SRC
